@@ -1,6 +1,6 @@
 import json
 
-from circuits.core import Event
+from circuits.core import Event, Value
 
 
 META_EXCLUDE = set(dir(Event()))
@@ -63,10 +63,15 @@ def dump_value(v):
             if not name.startswith('__'):
                 meta[name] = getattr(e, name)
 
+    # a handler may have returned the (nested) Value of another event
+    value = v.value
+    if isinstance(value, list):
+        value = [x.value if isinstance(x, Value) else x for x in value]
+
     data = {
         'id': v.node_call_id,
         'errors': v.errors,
-        'value': v._value,
+        'value': value,
         'meta': meta,
     }
     return json.dumps(data)
